@@ -79,6 +79,40 @@ def degenerate_ranges(rng, w):
     return styles
 
 
+def pinched_model_surfaces(rng, w, force=False):
+    """models of area features (cooling models included) get a 'max depth' surface that comes up to the model's own top at listed
+    interior points: the local thickness of the model is exactly zero at those points, along the edges between them and - with three of
+    them - on a whole triangle; the catalogue queries there at the top depth (0 for a plate that starts at the surface)"""
+    pinch = []
+    for f, ft in zip(w['json']['features'], w['truth']['features']):
+        if ft['type'] not in wg.AREA or (not force and rng.random() < 0.5):
+            continue
+        if any(p[0] == 0.0 or p[1] == 0.0 for p in ft['poly']):
+            continue
+        d0 = ft['d0']
+        d1 = ft['d1'] if ft['d1'] < 1e300 else d0 + 3e5
+        pts = [(wg.R(ft['centre'][0]), wg.R(ft['centre'][1]))]
+        for _ in range(rng.choice([0, 1, 2, 2])):
+            q = wg.point_in_poly_interior(rng, ft['poly'])
+            pts.append((wg.R(q[0]), wg.R(q[1])))
+        for k in MODEL_KINDS:
+            for m in f.get(k, []):
+                if not force and rng.random() < 0.4:
+                    continue
+                mmin = m.get('min depth', 0.0)
+                if not isinstance(mmin, (int, float)):
+                    continue
+                top = wg.R(max(d0, float(mmin)))
+                m['max depth'] = [[wg.R(d1)]] + [[top, [[px, py]]] for (px, py) in pts]
+                for (px, py) in pts:
+                    pinch.append((px, py, top))
+                if len(pts) >= 2:
+                    pinch.append((0.5 * (pts[0][0] + pts[1][0]), 0.5 * (pts[0][1] + pts[1][1]), top))
+                if len(pts) >= 3:
+                    pinch.append(((pts[0][0] + pts[1][0] + pts[2][0]) / 3.0, (pts[0][1] + pts[1][1] + pts[2][1]) / 3.0, top))
+    w['truth']['pinch'] = pinch
+
+
 def sloppy_rotation_matrices(rng, w):
     """rotation matrices written with two to four decimals (as people type them): finite, but not orthonormal, so that the derived
     quaternions are not of unit length"""
@@ -165,6 +199,9 @@ def catalogue(rng, w, extreme):
     surf = []
     raw = []
     depths_special = [0.0, -0.0, 1e-9, 1.0]
+    for (px, py, top) in t.get('pinch', []):
+        for d in (top, nextafter(top, True), nextafter(top, False) if top > 0 else 0.0, 0.0):
+            surf.append(('model-thickness-zero', px, py, d))
     for ft in t['features']:
         d0 = ft['d0']
         d1 = ft['d1'] if ft['d1'] < 1e300 else None
@@ -292,16 +329,34 @@ def main(tier, seed, replay):
     rng = random.Random(seed * 4447 + 13)
     V = core.Verdict(PID, tier, seed)
     V.coverage['rule'] = ('generated worlds with finite parameters (all feature/model types, both systems) and corpus worlds queried (3D and 2D, full property lists) at a catalogue of degenerate locations derived from '
-                          'the truth record: polygon vertices and edge midpoints, feature min/max depths exactly and their floating point neighbours, the own min/max depth exactly and its neighbours (half of the worlds have model ranges rewritten to touch the range of the feature in one depth: starting where the feature ends, ending where it starts, without extent, two layers meeting at one depth, a max depth surface reaching the min depth of the model at one listed point), plume centres/rims/tip, points exactly on a ridge axis (ridges rewritten to pass through the plate) at depth zero and the top of the model, rotation matrices written with 2-4 decimals (a quarter of the worlds), exactly vertical slabs/faults queried exactly at their segment junctions and tip (mass conserving without taper), trench coordinates, points on the trench line and '
+                          'the truth record: polygon vertices and edge midpoints, feature min/max depths exactly and their floating point neighbours, the own min/max depth exactly and its neighbours (half of the worlds have model ranges rewritten to touch the range of the feature in one depth: starting where the feature ends, ending where it starts, without extent, two layers meeting at one depth, a max depth surface reaching the min depth of the model at one listed point; a third of the worlds give models - cooling models included - a max depth surface that pinches out to zero local thickness at listed points, along the edge and on the triangle between them), plume centres/rims/tip, points exactly on a ridge axis (ridges rewritten to pass through the plate) at depth zero and the top of the model, rotation matrices written with 2-4 decimals (a quarter of the worlds), exactly vertical slabs/faults queried exactly at their segment junctions and tip (mass conserving without taper), trench coordinates, points on the trench line and '
                           'below it, slab surface and tip, dip point, poles, the date line with both signs of zero, the planet centre, cartesian surface heights at/below the min depth, random points (thorough: magnitudes '
                           'up to 1e12): every answer finite or a std::exception, no sanitizer report, signal or hang; non-trivial = catalogue points on a degenerate locus')
     quick = tier == 'quick'
     n_gen, n_corpus = (150, 40) if quick else (4500, 130)
     jobs = []
-    for i in range(n_gen):
+    n_pinch = 36 if quick else 1080
+    cooling = ['plate model constant age', 'half space model', 'plate model', 'chapman', 'linear', 'adiabatic']
+    for i in range(n_gen + n_pinch):
         wrng = random.Random(rng.getrandbits(48))
-        w = wg.gen_world(wrng, {'nfeatures': (1, 5), 'p_grains': 0.6 if i % 4 == 0 else 0.5, 'p_velocity': 0.5})
-        if i % 2 == 1:
+        if i >= n_gen:
+            # the pinch-out family: one area feature, one temperature model of each depth-dependent kind in turn, the model's max depth
+            # surface coming up to its top (half of the time the surface of the world) at listed interior points
+            name = cooling[i % len(cooling)]
+            ftype = 'oceanic plate' if name in cooling[:3] else ('continental plate' if name == 'chapman' else wrng.choice(list(wg.AREA)))
+            w = wg.gen_world(wrng, {'nfeatures': 1, 'types': [ftype], 'p_temperature': 1.0, 'allow_temperature': [name], 'p_grains': 0.3, 'p_velocity': 0.3})
+            if wrng.random() < 0.6:
+                w['json']['features'][0].pop('min depth', None)
+                w['truth']['features'][0]['d0'] = 0.0
+                for k in MODEL_KINDS:
+                    for m in w['json']['features'][0].get(k, []):
+                        if isinstance(m.get('min depth'), (int, float)) and wrng.random() < 0.7:
+                            m.pop('min depth')
+        else:
+            w = wg.gen_world(wrng, {'nfeatures': (1, 5), 'p_grains': 0.6 if i % 4 == 0 else 0.5, 'p_velocity': 0.5})
+        if i >= n_gen:
+            pass
+        elif i % 2 == 1:
             degenerate_ranges(wrng, w)
         if i % 3 != 0:
             ridge_through_footprint(wrng, w)
@@ -309,6 +364,10 @@ def main(tier, seed, replay):
             sloppy_rotation_matrices(wrng, w)
         if i % 5 == 1:
             vertical_slabs(wrng, w)
+        if i >= n_gen:
+            pinched_model_surfaces(wrng, w, force=True)
+        elif i % 3 == 2:
+            pinched_model_surfaces(wrng, w)
         fn = 'w%d.wb' % i
         c = core.Case('w%d' % i, files={fn: wg.dumps(w['json'])})
         world(c, 1, core.workfile(PID, fn))
